@@ -178,16 +178,18 @@ def ground_comparison_matrix(tier, seed):
             n += 1
             expr = f'({d1[1][0]}, {d1[1][1]}) {gop} ({d2[1][1]})'
             outs = [value_cmp_expect(t1, i, t2, 1, vop) for i in (0, 1)]
-            if 'XPTY0004' in outs:
-                # the statement defines the general comparison through the value comparison of the pairs; what
-                # happens when that value comparison is a type error is not part of it (the library is lenient
-                # and answers false / true for several incomparable pairs): counted, not judged
-                lenient += 1
-                n -= 1
-                continue
-            want = any(outs)
             got = run_native(lambda: ep_select(None, expr, parser=P, item=1))
-            ok = (got[0] == 'raise' and str(getattr(got[1], 'code', '')).endswith('XPTY0004')) if want == 'XPTY0004' else got == ('return', want)
+            if 'XPTY0004' in outs:
+                # the statement defines the general comparison through the value comparison of the pairs: a pair whose value
+                # comparison is a type error satisfies nothing, so the answer is the type error (F&O) or, read leniently, what
+                # the remaining pairs give; an answer 'true' that no comparable pair supports is a violation
+                lenient += 1
+                want = any(o is True for o in outs)
+                ok = (got[0] == 'raise' and str(getattr(got[1], 'code', '')).endswith('XPTY0004')) or got == ('return', want)
+                want = f'XPTY0004 (or {want})'
+            else:
+                want = any(outs)
+                ok = got == ('return', want)
             if not ok:
                 key = f'general comparison {t1} {gop} {t2}'
                 fams.setdefault(key, {'key': key, 'what': f'`{expr}` = {got!r}; F&O gives {want!r}', 'expr': expr, 'want': repr(want), 'count': 0})
@@ -196,6 +198,13 @@ def ground_comparison_matrix(tier, seed):
         ('xs:untypedAtomic("1") = 1', True), ('xs:untypedAtomic("1.0") = 1', True), ('xs:untypedAtomic("a") = "a"', True),
         ('xs:untypedAtomic("2") > 10', False), ('xs:untypedAtomic("2") > "10"', True), ('xs:untypedAtomic("1") = xs:untypedAtomic("1.0")', False),
         ('xs:untypedAtomic("true") = true()', True), ('xs:untypedAtomic("a") = 1', 'FORG0001'), ('xs:untypedAtomic("1") eq 1', 'XPTY0004'),
+        ('xs:dayTimeDuration("P1D") < xs:untypedAtomic("P2D")', True), ('xs:date("2001-01-01") < xs:untypedAtomic("2001-01-02")', True),
+        ('xs:untypedAtomic("P2D") > xs:dayTimeDuration("P1D")', True), ('xs:untypedAtomic("NaN") < 1.0', False), ('1.0 > xs:untypedAtomic("NaN")', False),
+        ('xs:untypedAtomic("0.1000000000000000000001") = xs:decimal("0.1")', True), ('xs:decimal("0.1") = xs:untypedAtomic("0.1000000000000000000001")', True),
+        ('xs:untypedAtomic("9007199254740993") = 9007199254740993', True), ('9007199254740993 = xs:untypedAtomic("9007199254740993")', True),
+        ('xs:untypedAtomic("9007199254740993") = 9007199254740992', True),
+        ('true() = 1.0', 'XPTY0004'), ('true() = 1e0', 'XPTY0004'), ('true() < 2.0', 'XPTY0004'), ('true() = xs:float("1")', 'XPTY0004'),
+        ('xs:untypedAtomic("x") = xs:date("2000-01-01")', 'FORG0001'), ('xs:date("2000-01-01") = xs:untypedAtomic("x")', 'FORG0001'),
         ('xs:decimal("0.1") = 0.1e0', True), ('xs:decimal("0.1") < 0.1e0', False), ('0.1e0 = xs:decimal("0.1")', True),
         ('xs:double("NaN") = xs:double("NaN")', False), ('xs:double("NaN") != xs:double("NaN")', True), ('xs:double("NaN") eq 1', False),
         ('xs:double("NaN") ne 1', True), ('xs:double("INF") eq 1e0', False), ('xs:double("INF") eq xs:double("-INF")', False),
@@ -217,13 +226,13 @@ def ground_comparison_matrix(tier, seed):
         n += 1
         got = run_native(lambda: ep_select(None, expr, parser=P, item=1))
         if isinstance(want, str):
-            ok = got[0] == 'raise' and str(getattr(got[1], 'code', '')).endswith(want)
+            ok = got[0] == 'raise' and any(str(getattr(got[1], 'code', '')).endswith(w) for w in want.split('|'))
         else:
             ok = got == ('return', want)
         if not ok:
             fams[expr] = {'key': expr, 'what': f'`{expr}` = {got!r}; F&O gives {want!r}', 'expr': expr, 'want': repr(want), 'count': 1}
     fails = list(fams.values())
-    return {'obligations': n, 'discharged': n - sum(f['count'] for f in fails), 'evaluations': n, 'distinct': n, 'exhaustive': True, 'general_comparisons_of_incomparable_types_not_judged': lenient,
+    return {'obligations': n, 'discharged': n - sum(f['count'] for f in fails), 'evaluations': n, 'distinct': n, 'exhaustive': True, 'general_comparisons_with_an_incomparable_pair_judged_as_error_or_remaining_pairs': lenient,
             'scope': f'{len(TYPES)}^2 ordered type pairs x 2x2 values x 6 value comparison operators; {len(TYPES) - 1}^2 pairs x 6 general '
                      'comparison operators on 2-item sequences; 50 special cases (untypedAtomic casts, NaN/INF, timezones, durations, '
                      'logic over EBV); oracle: F&O comparison table written by families', 'failures': fails[:40]}
@@ -233,8 +242,10 @@ def _replay_cmp(f):
     from elementpath import select as ep_select
     got = run_native(lambda: ep_select(None, f['expr'], parser=PARSERS['3.1'], item=1))
     want = eval(f['want'])
+    if isinstance(want, str) and want.startswith('XPTY0004 (or '):
+        return (got[0] == 'raise' and str(getattr(got[1], 'code', '')).endswith('XPTY0004')) or got == ('return', want.endswith('True)'))
     if isinstance(want, str):
-        return got[0] == 'raise' and str(getattr(got[1], 'code', '')).endswith(want)
+        return got[0] == 'raise' and any(str(getattr(got[1], 'code', '')).endswith(w) for w in want.split('|'))
     return got == ('return', want)
 
 
@@ -313,6 +324,12 @@ def _order_grids():
                                                                ('2000-01-01T05:00:00+05:00', 0), ('2000-01-01T00:00:00.001', 1), ('2000-01-01T00:00:00-00:01', 60000),
                                                                ('2000-01-01T24:00:00', 86400000), ('2000-01-02T00:00:00', 86400000))]
     g['time'] = [(f'xs:time("{t}")', k) for t, k in (('00:00:00', 0), ('00:00:00.5', 500), ('05:00:00+05:00', 0), ('12:00:00', 43200000), ('23:59:59.999', 86399999))]
+    import struct
+    f32 = lambda t: struct.unpack('f', struct.pack('f', float(t)))[0]        # noqa: E731  (the value space of xs:float is IEEE single precision)
+    g['float'] = [(f'xs:float("{t}")', f32(t)) for t in ('-1.5', '-0', '0', '1.0', '1.1', '1.5', '16777216', '16777218', '3.4028235E38', 'INF')]
+    # lexical forms that single precision does not separate, or separates by one unit in the last place (own grid: the library keeps xs:float in double
+    # precision with an approximate equality, which is a listed finding; the grid above stays free of it)
+    g['float (neighbouring single precision values)'] = [(f'xs:float("{t}")', f32(t)) for t in ('1.0', '1.00000001', '1.00000002', '1.00000008', '16777216', '16777217')]
     g['double'] = [(t, k) for t, k in (('xs:double("-INF")', -math.inf), ('-1e300', -1e300), ('-0e0', 0.0), ('0e0', 0.0), ('5e-324', 5e-324), ('0.1e0', 0.1), ('1e0', 1.0),
                                        ('9007199254740992e0', 2.0 ** 53), ('xs:double("INF")', math.inf))]
     return g
